@@ -63,6 +63,26 @@ CHECKS = {
    technique="runtime monitoring: per-block timestamp oracle from the harness's own record of claimed times, with lying puppet validators and synthetic DAGs with skewed clocks",
    text="For each delivered block the timestamp must lie between the two middle claimed times of the famous witnesses of its round-received and within the honest famous witnesses' range when fewer than a third lie; exercised with puppets claiming extreme times in nodesim and with lying creators in synthetic DAGs.",
    note="Any value between the two middle elements counts as the median for even counts."),
+ "C11": dict(engine="nodesim+crash", cat="fault_enumeration", ref="DESIGN.md §3 C11",
+   technique="runtime monitoring with fault injection: crash points at every kind of store write (in-process) and real SIGKILL of a child process, then bootstrap and comparison with durable logs",
+   text="Each case is one crash point: the victim's store dies at its k-th write call (before or after the write reached the database; k spread over the history; all write kinds) or a child process running an all-Badger network SIGKILLs itself at such a call without closing anything. The node is rebuilt from its database with bootstrap: re-delivered blocks must equal the application's durable log, completed-writes subset of known events subset of attempted-writes, head/seq restored, no height reused afterwards, agreement with the rest of the network after a continuation schedule. Clean shutdowns included.",
+   note="Process kill, not machine crash. In-process points release the Badger handle via Close; real kills are the SIGKILL tier. Stores reset by fast-sync excluded (bootstrap from 0 only)."),
+ "C15": dict(engine="dagcheck", cat="exploration", ref="DESIGN.md §3 C15",
+   technique="runtime monitoring: round-trip equalities over generated events/blocks/frames through the real wire, JSON, database and canonical encodings",
+   text="Generated events with a payload variant grammar go event->wire->transport JSON->event on a second real Hashgraph, event->DB form->event, into a real Badger store (read back after eviction and after reopen); blocks and frames of real histories go through the FastForwardResponse JSON, the canonical encoding and a rebuild with permuted map order. Hash, signature validity, payload bytes, wire form and private fields must be unchanged.",
+   note="Block signatures inside generated events are attributed to their creator (wire form has no validator field by design)."),
+ "C16": dict(engine="storecheck", cat="exploration", ref="DESIGN.md §3 C16",
+   technique="runtime monitoring: model-based differential replay of recorded store call sequences against the real BadgerStore across cache sizes, with interleaved reads and close/reopen",
+   text="The exact write sequences a real Hashgraph produced are replayed against a fresh BadgerStore with cache sizes from 1 to default, with random reads of old keys and full audits (API and DB-level reads of every record type, topological and per-participant listings complete/ordered/gap-free) before close, after reopen and at the end, against a map model.",
+   note="A write returning an error is a refused write and not applied to the model; cache-only reads judged through DB-level hooks only."),
+ "C17": dict(engine="nodesim", cat="exploration", ref="DESIGN.md §3 C17",
+   technique="runtime monitoring: frozen-state digest around valid would-be-effective requests in every non-babbling state; exact sync-diff oracle for suspended nodes; threshold monitor after every suspension check",
+   text="Real nodes in suspended / maintenance / joining / catching-up / shutdown states receive valid EagerSync (with events they lack), Sync, Join, FastForward requests and submissions: nothing may change, mutating requests must be refused; a run-time suspended node must answer syncs with exactly its events beyond the requester's known map in insertion order. Quorum-less runs with small limits: after each heartbeat check suspended iff new undetermined > limit x validators or evicted.",
+   note="Submitted transactions may enter the pool of a non-babbling node (no event is created)."),
+ "C20": dict(engine="live", cat="exploration", ref="DESIGN.md §3 C20",
+   technique="runtime monitoring with fault injection: real proxy pairs over loopback behind a cutting TCP forwarder, comparing both sides' views of blocks, responses and transactions",
+   text="Generated blocks, commit responses, snapshots and tagged transaction sequences pass through InmemProxy and the socket proxy pair; the application's view must equal Babble's (body hash, bytes, signature map), responses equal on the way back, handler errors surface, transactions arrive byte-identical in order while the caller reuses its buffer; with connections cut at random byte offsets a call either fails or is faithful and acknowledged submissions were delivered.",
+   note="Duplicate delivery on client retry is not judged."),
 }
 
 REASONS_NOT_YET = "check not built yet in this session (planned; see DESIGN.md)"
@@ -110,6 +130,12 @@ def main():
              "kind_free_text": "hostile value grammar delivered to real nodes in-process (with recover and attribution) and over real TCP (child processes)"},
             {"name": "fastsync", "path": "/verif/harness/ff.go", "serves_properties": ["C12", "C13", "C14"],
              "kind_free_text": "harvests valid fast-forward responses from honest nodes, tampers / forges them and applies them to victims under a full state digest"},
+            {"name": "crash", "path": "/verif/harness/c11.go", "serves_properties": ["C11"],
+             "kind_free_text": "crashing store decorator (panic or SIGKILL at the k-th write), child-process kill tier, bootstrap verifier"},
+            {"name": "storecheck", "path": "/verif/harness/storecheck.go", "serves_properties": ["C16"],
+             "kind_free_text": "records real store call sequences and replays them against BadgerStore under a map model"},
+            {"name": "live", "path": "/verif/harness/live.go", "serves_properties": ["C08", "C20"],
+             "kind_free_text": "real goroutines and sockets: TCP gossip transport and socket proxies on loopback, harness forwarder for connection cuts"},
             {"name": "thresholds", "path": "/verif/harness/thresholds.go", "serves_properties": [p for p in ALL if p in CHECKS and CHECKS[p]["engine"] == "thresholds"],
              "kind_free_text": "executes the real quorum arithmetic and acceptance decisions over an exhaustive range of set sizes"},
         ],
